@@ -19,7 +19,7 @@ use crate::ops::{
     Reciprocal, ReduceMean, RepeatInterleave, Shape, Silu, Softmax, Swish, SymbolInfo, Transpose,
 };
 use crate::optimize::pattern_matcher::{Match, Pattern};
-use crate::value::ValueType;
+use crate::value::{DataType, ValueType};
 
 #[derive(Debug)]
 pub struct FusedOp {
@@ -963,6 +963,13 @@ impl FusionVisitor for MatMulScaleFusion {
     }
 }
 
+/// Test if an operator node is a `Cast` to float.
+fn cast_to_float(graph: &Graph, node_id: NodeId) -> bool {
+    graph
+        .get_operator::<Cast>(node_id)
+        .is_some_and(|cast| cast.to == DataType::Float)
+}
+
 pub struct MatMulIntegerToFloatFusion {}
 
 impl PatternFusion for MatMulIntegerToFloatFusion {
@@ -992,6 +999,12 @@ impl PatternFusion for MatMulIntegerToFloatFusion {
     }
 
     fn maybe_fuse(&self, pat_match: &Match, graph: &Graph) -> Result<Self::Operator, FusionError> {
+        // The fused operator produces a float output.
+        let cast_id = pat_match.node_id("cast").unwrap();
+        if !cast_to_float(graph, cast_id) {
+            return Err(FusionError::CheckFailed("cast output is not float"));
+        }
+
         let scale = pat_match.node_id("scale").unwrap();
         let scale_shape = graph
             .get_node(scale)
@@ -1028,7 +1041,9 @@ impl PatternFusion for ConvIntegerToFloatFusion {
         Pattern::unary_op(
             "Cast",
             Pattern::operator("ConvInteger", [x, w, x_zero, w_zero]).with_name("conv"),
-        ) * scale
+        )
+        .with_name("cast")
+            * scale
     }
 
     fn inputs(&self) -> &[&str] {
@@ -1036,6 +1051,12 @@ impl PatternFusion for ConvIntegerToFloatFusion {
     }
 
     fn maybe_fuse(&self, pat_match: &Match, graph: &Graph) -> Result<Self::Operator, FusionError> {
+        // The fused operator produces a float output.
+        let cast_id = pat_match.node_id("cast").unwrap();
+        if !cast_to_float(graph, cast_id) {
+            return Err(FusionError::CheckFailed("cast output is not float"));
+        }
+
         let scale = pat_match.node_id("scale").unwrap();
         let scale_shape = graph
             .get_node(scale)
